@@ -111,6 +111,8 @@ class Run(object):
     def step(self, e):
         a = e["a"]
         try:
+            if a != "Timeout" and self.reactor.seconds() < self.TIMEOUT - 2:
+                self.reactor.advance(1)          # time passes between the steps (a second each; the timeout is a minute)
             if a == "Shutdown":
                 # the application's reactor stops: its "before shutdown" triggers run (MemoryReactor only records them)
                 for fn, args, kw in list(self.reactor.triggers.get("before", {}).get("shutdown", [])):
@@ -160,7 +162,8 @@ class Run(object):
                 sim.event('650 STATUS_CLIENT NOTICE BOOTSTRAP PROGRESS=%d TAG=%s SUMMARY="step %d"\r\n'
                           % (e["p"], "done" if e["p"] == 100 else "loading", e["p"]))
             elif a == "Timeout":
-                self.reactor.advance(self.TIMEOUT)
+                # the launch timeout counts from the launch, whatever happened in between
+                self.reactor.advance(self.TIMEOUT - self.reactor.seconds())
             elif a == "Exit":
                 self.reactor.ptransport.exited = True
                 status = failure.Failure(error.ProcessTerminated(exitCode=1 if len(self.fired) % 2 == 0 else None,
